@@ -144,8 +144,8 @@ def workerActs (resOf : Nat → Nat) (q : Req) : List Act :=
          .writeTmp q.key (.full r true) size, .commit q.key]
       else
         [.writeTmp q.key (.part r 0) 0, .writeTmp q.key (.full r false) size, .commit q.key]
-  | .notFound => []
-  | .raiseBefore => []
+  | .notFound => [.rmTmp q.key]        -- the `finally` clause removes a stale temporary file
+  | .raiseBefore => [.rmTmp q.key]
   | .raisePartial n => [.writeTmp q.key (.part r n) n, .rmTmp q.key]
   | .raisePost size =>
       if q.postprocess then
